@@ -488,6 +488,28 @@ def c04_construct(R):
                 return [("value", z3.BoolVal(same_obj(got, flat))), ("fresh", z3.BoolVal(all(got is not v for v in vals.values())))]
 
             verify(R, "C04.construct", fn, run, label=label)
+    # arguments of another component type are converted (accepted programs must not go wrong: C05)
+    for label, src, build, want in (
+            ("float4(int2,int,float)", "export function f(int2 a, int b, float c) -> float4 { return float4(a, b, c); }",
+             lambda ctx: dict(a=symvec(ctx, "a", 2, "i"), b=ctx.int("b"), c=ctx.real("c")), lambda v: [v["a"][0], v["a"][1], v["b"], v["c"]]),
+            ("float2(int,uint)", "export function f(int a, uint b) -> float2 { return float2(a, b); }",
+             lambda ctx: dict(a=ctx.int("a"), b=ctx.int("b")), lambda v: [v["a"], v["b"]]),
+            ("call float2<-int2", "function h(float2 v) -> float { return v.y; }\nexport function f(int2 a) -> float { return h(a); }",
+             lambda ctx: dict(a=symvec(ctx, "a", 2, "i")), lambda v: v["a"][1]),
+            ("nested call int<-float", "function g(int x) -> int { return x; }\nfunction h(int x) -> int { return (x * 2); }\nexport function f(int a) -> int { return h(g(a)); }",
+             lambda ctx: dict(a=ctx.int("a")), lambda v: v["a"] * 2)):
+        r, exc = program(src)
+        if r is None:
+            R.check(f"C04.construct[{label}]", fn, False, detail=f"rejected {exc!r}")
+            continue
+
+        def runc(ctx, r=r, build=build, want=want):
+            vals = build(ctx)
+            got, _ = invoke(r, "f", **vals)
+            w = want(vals)
+            return [("value", vm_c.veq(got, [term(x) for x in w]) if isinstance(w, list) else vm_c.teq(got, term(w)))]
+
+        verify(R, "C04.construct", fn, runc, label=label)
     for n in (3, 4):
         mt = f"float{n}x{n}"
         params = ", ".join(f"float{n} r{i}" for i in range(n))
